@@ -52,6 +52,7 @@ type Actor struct {
 	CurReqID   string // id delivered and not yet answered
 	CurInv     *Invocation
 	Polls      int
+	Refused    int // submissions for the delivered id that were refused
 	FirstPoll  int // step of the first next call (0 = none)
 
 	// extension side
@@ -259,6 +260,14 @@ func (w *World) absorb() {
 				if id == a.CurReqID {
 					a.CurReqID = ""
 					a.st = "answered"
+				}
+			} else if c.Status >= 400 {
+				parts := strings.Split(c.Path, "/")
+				if id := parts[len(parts)-2]; id == a.CurReqID {
+					// the submission for the id this runtime was given was refused: a runtime gives up on it
+					a.Refused++
+					a.CurReqID = ""
+					a.st = "refused"
 				}
 			}
 		case "rt-initerror":
